@@ -243,6 +243,7 @@ restart:
         // If there's no more data left in the
         // buffer, send that information out.
         if (drec->stream.avail_out == 0) {
+            HTP_VERIF_PROBE("decomp.flush_full", d->tx->connp, drec->stream.avail_in, 0);
             drec->crc = crc32(drec->crc, drec->buffer, GZIP_BUF_SIZE);
 
             // Prepare data for callback.
@@ -364,6 +365,7 @@ restart:
             }
 
             // see if we want to restart the decompressor
+            HTP_VERIF_PROBE("decomp.restart", d->tx->connp, drec->stream.total_in, drec->restart);
             if (htp_gzip_decompressor_restart(drec,
                                               d->data, d->len, &consumed) == 1)
             {
@@ -392,6 +394,7 @@ restart:
             drec->stream.next_out = drec->buffer;
 
             /* successfully passed through, lets continue doing that */
+            HTP_VERIF_PROBE("decomp.passthrough", d->tx->connp, d->len, drec->restart);
             drec->super.passthrough = 1;
             return HTP_OK;
         }
